@@ -4,7 +4,8 @@ CONSTANTS
   FullNames = {"x", "y"}
   FileTok = {"f1"}
   EnvTok = {"e1", "e2"}
-  ExecTok = {"p1"}
+  ExecTok = {"p1", "gone"}
+  MissingExec = {"gone"}
   SbomTok = {"s1"}
   Formats <- MCFormats2
   MdVals = {"1"}
